@@ -42,7 +42,7 @@ REQUIRED_LABELS = {"order:noncanonical": 0.1, "has:number": 0.1, "has:pow": 0.05
 
 
 def budget(tier):
-    n = int(os.environ.get("KV_EXAMPLES", 0)) or (3200 if tier == "quick" else 40000)
+    n = int(os.environ.get("KV_EXAMPLES", 0)) or (8000 if tier == "quick" else 40000)
     return {"examples": n, "shards": 16, "wall": 100 if tier == "quick" else 1200}
 
 
@@ -105,7 +105,8 @@ def _cases(draw, tier):
     args = [draw(S.operand(d, classes=["single", "sparse", "sparse", "puregrade", "puregrade", "perm", "perm", "gradeblock"],
                            max_len=cap, min_len=1, zero_prob=0.03)) for _ in range(nargs)]
     return {"cfg": cfg, "tree": tree, "nargs": nargs, "args": args, "ncallees": ncallees,
-            "symbolic": draw(st.integers(0, 3)) == 0, "callee_sym": draw(st.booleans())}
+            "symbolic": draw(st.integers(0, 3)) == 0, "callee_sym": draw(st.booleans()), "wrapper": draw(st.integers(0, 3)) == 0,
+            "cse": draw(st.integers(0, 3)) != 0}
 
 
 def cases(tier):
@@ -281,6 +282,8 @@ def evaluate(case):
     st0, plain = _run(build(alg0, "plain"), args_for(alg0))
     noncanon = any(not S.is_canonical(a["keys"]) for a in case["args"])
     labels = [f"d:{d}", "order:noncanonical" if noncanon else "order:canonical", "grammar:must-equal" if must_equal else "grammar:other-use"]
+    if case.get("wrapper"):
+        labels.append("opt:wrapper")
     for f_ in ("number", "pow", "coef", "call"):
         if feats[f_]:
             labels.append(f"has:{f_}")
@@ -298,7 +301,8 @@ def evaluate(case):
         modes.append("symbolic")
         labels.append("mode:symbolic")
     for mode in modes:
-        alg = kd.build_algebra(cfg)      # own algebra per mode: C09 is about shared histories, not this property
+        # own algebra per mode (C09 is about shared histories); options drawn per case: wrapper / cse must not matter
+        alg = kd.build_algebra(cfg, wrapper=bool(case.get("wrapper")), cse=case.get("cse", True))
         try:
             reg = build(alg, mode)
         except Exception as e:
